@@ -30,8 +30,8 @@ pub const HOSTILE: [&str; 95] = [
     "f__0", "f__1", "f__3", "f__4", "f__5",
 ];
 
-pub const ROLES: [&str; 19] =
-    ["lib-fn", "lib-struct", "lib-variant", "fn", "param", "local", "patvar", "closure-param", "struct", "field", "enum", "variant", "trait", "method", "tparam", "fn-and-local", "fn-called-in-closure", "fn-next-to-captured-function-local", "trait-method"];
+pub const ROLES: [&str; 20] =
+    ["lib-fn", "lib-struct", "lib-variant", "fn", "param", "local", "patvar", "closure-param", "struct", "field", "enum", "variant", "trait", "method", "tparam", "fn-and-local", "fn-called-in-closure", "fn-next-to-captured-function-local", "trait-method", "lib-generic-variant"];
 
 const BENIGN: &str = "zzq";
 
@@ -42,8 +42,13 @@ fn template(role: &str) -> (&'static str, &'static str) {
         "lib-fn" => ("package Main\nimport Lib\n\nfn main() { string_println(int32_to_string(Lib::{N}(1) + Lib::helper())) }\n//// FILE Lib/lib.gom\npackage Lib\n\nfn helper() -> int32 { 10 }\nfn {N}(a: int32) -> int32 { a + helper() }\n", "21\n"),
         "lib-struct" => ("package Main\nimport Lib\n\nfn main() { let s = Lib::mk(4); string_println(int32_to_string(s.a)) }\n//// FILE Lib/lib.gom\npackage Lib\n\nstruct {N} { a: int32 }\nfn mk(v: int32) -> {N} { {N} { a: v } }\n", "4\n"),
         "lib-variant" => (
-            "package Main\nimport Lib\n\nfn main() { string_println(int32_to_string(Lib::g(Lib::Choice::{N}) + Lib::g(Lib::Choice::Other(2)))) }\n//// FILE Lib/lib.gom\npackage Lib\n\nenum Choice { {N}, Other(int32) }\nfn g(e: Choice) -> int32 { match e { Choice::{N} => 1, Choice::Other(v) => v } }\n",
-            "3\n",
+            "package Main\nimport Lib\n\nfn main() { let k = match Lib::g(Lib::Choice::Other(5)) { 5 => 1, _ => 0 }; let m = match Lib::Choice::Other(7) { Lib::Choice::Other(w) => w, _ => 0 }; string_println(int32_to_string(k + m + Lib::g(Lib::Choice::{N}) + Lib::g(Lib::Choice::Other(2)))) }\n//// FILE Lib/lib.gom\npackage Lib\n\nenum Choice { {N}, Other(int32) }\nfn g(e: Choice) -> int32 { match e { Choice::{N} => 1, Choice::Other(v) => v } }\n",
+            "11\n",
+        ),
+        // a variant of a generic enum of an imported package, with one instance in the program
+        "lib-generic-variant" => (
+            "package Main\nimport Lib\n\nfn main() { let r = match Lib::make(7) { Lib::Res::{N}(v) => v, Lib::Res::Nothing => 0 }; let k = match Lib::size(Lib::make(1)) { 1 => 10, _ => 0 }; string_println(int32_to_string(r + k)) }\n//// FILE Lib/lib.gom\npackage Lib\n\nenum Res[T] { {N}(T), Nothing }\nfn make(n: int32) -> Res[int32] { Res::{N}(n) }\nfn size(r: Res[int32]) -> int32 { match r { Res::{N}(v) => v, Res::Nothing => 0 } }\n",
+            "17\n",
         ),
         "fn" => ("fn {N}(a: int32) -> int32 { a + 1 }\nfn main() { let r = {N}(1); string_println(int32_to_string(r)) }\n", "2\n"),
         "param" => ("fn f({N}: int32) -> int32 { {N} + 1 }\nfn main() { string_println(int32_to_string(f(1))) }\n", "2\n"),
@@ -97,8 +102,20 @@ fn template(role: &str) -> (&'static str, &'static str) {
 /// programs whose *generated* names could collide with each other
 fn witnesses() -> Vec<(&'static str, &'static str, &'static str)> {
     vec![
+        // a type of the program spelled like the Go name a local gets (`a` with index 0 -> `a__0`)
+        ("renamed-local-vs-user-struct", "struct a__0 { k: int32 }\nfn main() { let a = 1; let s = a__0 { k: a }; string_println(int32_to_string(s.k + a)) }\n", "2\n"),
+        ("renamed-local-vs-user-enum", "enum a__0 { Pa(int32), Pb }\nfn pick(e: a__0) -> int32 { match e { a__0::Pa(k) => k, a__0::Pb => 0 } }\nfn main() { let a = 1; let e: a__0 = a__0::Pa(a); string_println(int32_to_string(pick(e) + a)) }\n", "2\n"),
+        ("renamed-local-vs-user-variant", "enum Ee { a__0(int32), Pb }\nfn pick(e: Ee) -> int32 { match e { Ee::a__0(k) => k, Ee::Pb => 0 } }\nfn main() { let a = 1; let e = Ee::a__0(a); string_println(int32_to_string(pick(e) + a)) }\n", "2\n"),
+        // a function or type of the program spelled like the name an instance of a generic one gets
+        ("fn-instance-vs-user-fn", "fn id[T](x: T) -> T { x }\nfn id__T_int32(x: int32) -> int32 { x + 100 }\nfn main() { string_println(int32_to_string(id(1) + id__T_int32(3))) }\n", "104\n"),
+        ("struct-instance-vs-user-struct", "struct Box[T] { v: T }\nstruct Box__int32 { w: string }\nfn main() { let p = Box { v: 1 }; let q = Box__int32 { w: \"w\" }; string_println(int32_to_string(p.v) + q.w) }\n", "1w\n"),
+        ("enum-instance-vs-user-enum", "enum Opt[T] { None, Some(T) }\nenum Opt__int32 { Some(string), None }\nfn main() { let a: Opt[int32] = Opt::Some(1); let b = Opt__int32::Some(\"s\"); let x = match a { Opt::Some(n) => n, Opt::None => 0 }; let y = match b { Opt__int32::Some(t) => t, Opt__int32::None => \"none\" }; string_println(int32_to_string(x) + y) }\n", "1s\n"),
+        ("enum-instance-vs-user-enum-variants-in-the-same-order", "enum Opt[T] { None, Some(T) }\nenum Opt__int32 { None, Some(string) }\nfn main() { let a: Opt[int32] = Opt::Some(1); let b = Opt__int32::Some(\"s\"); let x = match a { Opt::Some(n) => n, Opt::None => 0 }; let y = match b { Opt__int32::Some(t) => t, Opt__int32::None => \"none\" }; string_println(int32_to_string(x) + y) }\n", "1s\n"),
+        ("two-instances-of-one-spelling", "struct X__B_Y { a: int32 }\nstruct Z { a: int32 }\nstruct X { a: int32 }\nstruct Y__B_Z { a: int32 }\nfn first[A, B](a: A, b: B) -> A { a }\nfn main() { let p = first(X__B_Y { a: 1 }, Z { a: 2 }); let q = first(X { a: 3 }, Y__B_Z { a: 4 }); string_println(int32_to_string(p.a) + int32_to_string(q.a)) }\n", "13\n"),
         ("tuple-struct-vs-user-struct", "struct Tuple2_int32_bool { k: int32 }\nfn main() { let t = (1, true); let u = Tuple2_int32_bool { k: 2 }; string_println(int32_to_string(t.0 + u.k)) }\n", "3\n"),
-        ("closure-env-vs-user-struct", "struct closure_env_main_0 { k: int32 }\nfn main() { let z = 1; let f = |q: int32| q + z; let u = closure_env_main_0 { k: 2 }; string_println(int32_to_string(f(3) + u.k)) }\n", "6\n"),
+        ("closure-env-vs-user-struct", "struct closure_env_f_0 { k: int32 }\nfn main() { let z = 1; let f = |q: int32| q + z; let u = closure_env_f_0 { k: 2 }; string_println(int32_to_string(f(3) + u.k)) }\n", "6\n"),
+        ("anonymous-closure-env-vs-user-struct", "struct closure_env_main_0 { k: int32 }\nfn ap(g: (int32) -> int32, x: int32) -> int32 { g(x) }\nfn main() { let z = 1; let u = closure_env_main_0 { k: 2 }; string_println(int32_to_string(ap(|q: int32| q + z, 3) + u.k)) }\n", "6\n"),
+        ("closure-env-vs-user-fn", "fn closure_env_f_0(a: int32) -> int32 { a + 1 }\nfn main() { let z = 1; let f = |q: int32| q + z; string_println(int32_to_string(f(3) + closure_env_f_0(1))) }\n", "6\n"),
         ("ref-struct-vs-user-struct", "struct ref_int32_x { k: int32 }\nfn main() { let r = ref(1); let u = ref_int32_x { k: 2 }; string_println(int32_to_string(ref_get(r) + u.k)) }\n", "3\n"),
         ("variant-vs-struct", "enum E { A, B(int32) }\nstruct A { k: int32 }\nfn g(e: E) -> int32 { match e { E::A => 1, E::B(v) => v } }\nfn main() { let u = A { k: 2 }; string_println(int32_to_string(g(E::A) + u.k)) }\n", "3\n"),
         ("same-variant-two-enums", "enum E { A, B(int32) }\nenum F { A, C(int32) }\nfn g(e: E) -> int32 { match e { E::A => 1, E::B(v) => v } }\nfn h(e: F) -> int32 { match e { F::A => 10, F::C(v) => v } }\nfn main() { string_println(int32_to_string(g(E::A) + h(F::A))) }\n", "11\n"),
@@ -259,15 +276,47 @@ fn run_text(ctx: &mut Ctx, text: &str) -> Result<Obs, (String, String)> {
     }
 }
 
+/// the same project through `build` of every package (dependencies first) and `link`
+fn run_text_separate(ctx: &mut Ctx, text: &str) -> Result<Obs, (String, String)> {
+    let mut parts = text.split("//// FILE ");
+    let mut files = vec![("main.gom".to_string(), parts.next().unwrap_or("").to_string())];
+    for part in parts {
+        let (rel, body) = part.split_once('\n').unwrap_or((part, ""));
+        files.push((rel.trim().to_string(), body.to_string()));
+    }
+    let proj = crate::projects::Project { name: "names".into(), files, expected_stdout: None };
+    let root = ctx.scratch.fresh_dir("names-sep");
+    let order: Vec<usize> = (0..proj.files.len()).collect();
+    crate::projects::materialize(&root, &proj, &order);
+    let pkgs = crate::projects::packages(&proj);
+    let Some(topo) = crate::projects::topo_orders(&pkgs).into_iter().next() else {
+        return Err(("machinery".into(), "no build order".into()));
+    };
+    let out = ctx.scratch.fresh_dir("names-out");
+    match crate::projects::separate(&root, &out, &pkgs, &topo, false).built {
+        crate::projects::Built::Ok { go } => {
+            let gr = analyse_and_run(go, FUEL);
+            match (&gr.verdict, &gr.run) {
+                (GoVerdict::Ok(_), Some(r)) => Ok(obs_of_go(r)),
+                (GoVerdict::Rejected(errs), _) => Err((format!("go.{}", errs[0].rule), format!("line {}: {}", errs[0].line, errs[0].msg))),
+                (GoVerdict::Unsupported(m), _) => Err(("machinery.go-unsupported".into(), m.clone())),
+                _ => Err(("machinery".into(), "no run".into())),
+            }
+        }
+        crate::projects::Built::Err { stage, messages } => Err((format!("rejected.{}", stage), messages.join("; "))),
+        crate::projects::Built::Panic(m) => Err(("compile.panic".into(), normalise_msg(&m))),
+    }
+}
+
 impl Family for NamesFamily {
     fn name(&self) -> &'static str {
         "names"
     }
     fn serves(&self) -> &'static [&'static str] {
-        &["C19", "C02", "C04"]
+        &["C19", "C02", "C04", "C14"]
     }
     fn rule(&self) -> &'static str {
-        "95 hostile identifiers (Go keywords that goml allows, predeclared identifiers, runtime helper names, the builtins expanded at their call sites, compiler temporaries, generated type/helper names, spellings of the compiler's own type representation, the entry point's names, mangling look-alikes such as a__0) x 19 roles (a trait method reached by path, by dot, through a bound and through a dyn value; a fn called from a closure that captures a function-typed local, fn / struct / variant of an imported package, fn, param, local, pattern variable, closure parameter, struct, field, enum, variant, trait, method, type parameter, fn next to temporaries, fn called from a closure) plus 14 collision witnesses for generated names, plus 28 programs declaring two entities of one name in one namespace (functions, types, traits, parameters of functions/methods/impl methods, variants, fields, extern vs fn, methods of one impl, one binder twice in a tuple / nested / constructor / struct pattern or in a closure's parameter list) that must be rejected, plus 29 programs of nested matches on two enum-typed variables (every word of length <= 4 over {x, y} beginning with x as the scrutinees from the outside in; the innermost level also inside a closure called at once) and 7 programs in which re-matches of the variable stand next to each other inside an arm of a match on it (with a match on the other variable, an if or a closure between or around them), and 364 programs with a local spelled field0..field27, as the last of 1..13 parameters of a function whose body is a struct literal written in another order than declared (whose field values the compiler names); whose Go type switches rebind the scrutinee's identifier inside their cases; oracle: emitted Go passes the Go checker and prints exactly what the twin with a benign identifier prints (= the hard-wired expected output). non-trivial = cases whose hostile name survives into the Go text unescaped or mangled; distinct = distinct source text"
+        "95 hostile identifiers (Go keywords that goml allows, predeclared identifiers, runtime helper names, the builtins expanded at their call sites, compiler temporaries, generated type/helper names, spellings of the compiler's own type representation, the entry point's names, mangling look-alikes such as a__0) x 20 roles (a variant of a generic enum of an imported package with one instance; a trait method reached by path, by dot, through a bound and through a dyn value; a fn called from a closure that captures a function-typed local, fn / struct / variant of an imported package (these through whole-program compilation and through build + link), fn, param, local, pattern variable, closure parameter, struct, field, enum, variant, trait, method, type parameter, fn next to temporaries, fn called from a closure) plus 24 collision witnesses for generated names (5 for the names of generic instances, 3 for types spelled like a renamed local), plus 28 programs declaring two entities of one name in one namespace (functions, types, traits, parameters of functions/methods/impl methods, variants, fields, extern vs fn, methods of one impl, one binder twice in a tuple / nested / constructor / struct pattern or in a closure's parameter list) that must be rejected, plus 29 programs of nested matches on two enum-typed variables (every word of length <= 4 over {x, y} beginning with x as the scrutinees from the outside in; the innermost level also inside a closure called at once) and 7 programs in which re-matches of the variable stand next to each other inside an arm of a match on it (with a match on the other variable, an if or a closure between or around them), and 364 programs with a local spelled field0..field27, as the last of 1..13 parameters of a function whose body is a struct literal written in another order than declared (whose field values the compiler names); whose Go type switches rebind the scrutinee's identifier inside their cases; oracle: emitted Go passes the Go checker and prints exactly what the twin with a benign identifier prints (= the hard-wired expected output). non-trivial = cases whose hostile name survives into the Go text unescaped or mangled; distinct = distinct source text"
     }
     fn cases(&self, _tier: Tier) -> Box<dyn Iterator<Item = Value> + '_> {
         let mut v = Vec::new();
@@ -392,8 +441,18 @@ impl Family for NamesFamily {
             }
         }
         rep.nontrivial_key = Some(text.clone());
-        match run_text(ctx, &text) {
+        // a project of several packages is also built package by package and linked
+        let pipelines: Vec<&str> = if text.contains("//// FILE ") { vec!["whole-program", "build+link"] } else { vec!["whole-program"] };
+        let mut whole_ok = false;
+        for pipeline in pipelines {
+        let site = if pipeline == "build+link" { format!("{};pipeline=build+link", site) } else { site.clone() };
+        let replay = replay.clone();
+        let ran = if pipeline == "build+link" { run_text_separate(ctx, &text) } else { run_text(ctx, &text) };
+        match ran {
             Ok(o) => {
+                if pipeline == "whole-program" {
+                    whole_ok = true;
+                }
                 rep.outcome = Some(lossy(&o.stdout));
                 if lossy(&o.stdout) == expected && o.end == NEnd::Ok {
                     rep.tag("agree");
@@ -422,8 +481,13 @@ impl Family for NamesFamily {
                     for p in props {
                         rep.findings.push(Finding { property: p, class: class.clone(), site: site.clone(), detail: msg.clone(), replay: replay.clone() });
                     }
+                    // whole-program compilation gave a valid program: the two ways to compile the project differ
+                    if pipeline == "build+link" && whole_ok {
+                        rep.findings.push(Finding { property: "C14", class: "valid-whole-invalid-link".into(), site: site.clone(), detail: msg.clone(), replay: replay.clone() });
+                    }
                 }
             }
+        }
         }
         rep
     }
